@@ -27,7 +27,7 @@ def run(tier, t0):
                term.rec(prog, cg, [common.UTIL_MAIN], member_scope=lambda f: f.file.startswith(('fileio/', 'common/', 'disasm/', 'main/naken_util')) or f.file in ('core/UtilContext.cpp', 'core/Linker.cpp', 'core/imports_obj.cpp', 'core/imports_ar.cpp')), div.div(prog, scope, 40, ctx=dctx), null.null_a(prog, scope, 20),
                tbl.ttbl(prog), disp.disp(prog), idx.ptr_into_array(prog, scope, an),
                rprog.run(prog, cg),
-               strs.strs(prog, cg, scope, 100),
+               strs.strs(prog, cg, scope, 100), strs.str_loops(prog, scope, an, 20),
                wrap.wrap_loops(prog, lambda f: f.file.startswith(('disasm/', 'core/UtilContext', 'main/naken_util', 'fileio/')), an, 40, strict_fns=common.range_printers())]
     return report.finish('C17', tier, results, EXPLANATION,
                          ['the invariants listed for not-decided subscripts were read from the code and replayed under ASan '
